@@ -78,6 +78,15 @@ func (f *Flat) CheckChain(r *Report, rule string, fi *FuncInfo, steps []step) bo
 			keys = append(keys, s.Keys...)
 		}
 		if g := p.FlatInlExcept(fi, keys...); g != nil && missing(g) < m {
+			// (edges the caller has shown to be infeasible - the exhaustion edge of store.Set's directory loop - stay
+			// removed in the graph with the helpers spliced in)
+			for _, st := range f.InfeasibleLoopExits {
+				st := st
+				g = g.WithoutEdges(func(from *GNode, e Edge) bool {
+					return from.Ast == nil && from.Block != nil && from.Block.Kind == cfg.KindRangeLoop && from.Block.Stmt == st && e.Label == 2
+				})
+				g.InfeasibleLoopExits = append(g.InfeasibleLoopExits, st)
+			}
 			f = g
 		}
 	}
